@@ -31,6 +31,7 @@ const (
 	rvBytes // byte slice with an origin
 	rvBool  // boolean constant known on this path
 	rvFunc  // a function value (closure, method value, named function)
+	rvIface // an interface value whose dynamic type is known
 )
 
 type rval struct {
@@ -41,6 +42,7 @@ type rval struct {
 	origin string         // rvBytes: "proof" (marshalled proof), "errorbody", "literal", "body"
 	from   *robj          // rvConst loaded from a field of this object
 	fn     *ssa.Function  // rvFunc
+	dyn    types.Type     // rvIface
 }
 
 type robj struct {
@@ -80,15 +82,16 @@ type pendingErr struct {
 }
 
 type respWalker struct {
-	p        *core.Program
-	pkg      *ssa.Package
-	psT      *types.Named
-	paths    []*rPath
-	limit    int
-	nForks   int
-	modeOf   map[string]bool // accepted mode constants
-	resolved map[*ssa.Call]*ssa.Function
-	globals  map[*ssa.Global]*robj
+	p           *core.Program
+	pkg         *ssa.Package
+	psT         *types.Named
+	paths       []*rPath
+	limit       int
+	nForks      int
+	modeOf      map[string]bool // accepted mode constants
+	resolved    map[*ssa.Call]*ssa.Function
+	resolvedCom map[*ssa.Call]*ssa.CallCommon
+	globals     map[*ssa.Global]*robj
 }
 
 type rFrame struct {
@@ -281,6 +284,10 @@ func (rw *respWalker) val(fr *rFrame, v ssa.Value) rval {
 						return inner
 					}
 					return o
+				}
+			case *ssa.FreeVar:
+				if v, ok := fr.env[a]; ok {
+					return v
 				}
 			case *ssa.Global:
 				// a package-level descriptor with constant fields (var malformedBody = errorKind{400, "malformed_body"}) that
@@ -568,6 +575,22 @@ func (rw *respWalker) call(fr *rFrame, pt *rPath, c *ssa.Call, depth int) {
 		return
 	}
 	callee := com.StaticCallee()
+	if com.IsInvoke() {
+		// a method call on an interface value whose dynamic type is known on this path (the handler a middleware wraps)
+		if iv := rw.val(fr, com.Value); iv.k == rvIface && iv.dyn != nil {
+			target := rw.p.MethodOf(iv.dyn, com.Method.Name())
+			if target == nil {
+				if pt, ok := iv.dyn.(*types.Pointer); ok {
+					target = rw.p.MethodOf(pt.Elem(), com.Method.Name())
+				}
+			}
+			if target != nil {
+				callee = target
+				com = &ssa.CallCommon{Value: target, Args: append([]ssa.Value{com.Value}, com.Args...)}
+				rw.resolvedCom[c] = com
+			}
+		}
+	}
 	if callee == nil && !com.IsInvoke() {
 		// a call through a function value known on this path: a method value stands for the method, an in-package function
 		// or closure is walked like a static callee
@@ -679,6 +702,9 @@ func constantInt(c constant.Value) int64 {
 // inline walks an in-package callee and continues the caller after each of its return paths.
 func (rw *respWalker) inline(fr *rFrame, pt *rPath, c *ssa.Call, b *ssa.BasicBlock, i int, visited map[*ssa.BasicBlock]int, depth int, cont func(*rFrame, *rPath, []rval)) {
 	com := c.Common()
+	if rc, ok := rw.resolvedCom[c]; ok {
+		com = rc
+	}
 	var callee *ssa.Function
 	var bindings []ssa.Value
 	if mc, ok := com.Value.(*ssa.MakeClosure); ok {
@@ -720,9 +746,21 @@ func (rw *respWalker) inline(fr *rFrame, pt *rPath, c *ssa.Call, b *ssa.BasicBlo
 }
 
 // runRespFlow enumerates the handler's paths.
+// entryBind gives the values the entry function's free variables are bound to (a middleware's closure); set by
+// checkResponsePathsEntry for the duration of one walk.
+var respEntryBind map[ssa.Value]ssa.Value
+
 func runRespFlow(p *core.Program, handler *ssa.Function, psT *types.Named, modes map[string]bool) *respWalker {
-	rw := &respWalker{p: p, pkg: handler.Pkg, psT: psT, limit: 4000, modeOf: modes, resolved: map[*ssa.Call]*ssa.Function{}, globals: map[*ssa.Global]*robj{}}
+	rw := &respWalker{p: p, pkg: handler.Pkg, psT: psT, limit: 4000, modeOf: modes, resolved: map[*ssa.Call]*ssa.Function{}, resolvedCom: map[*ssa.Call]*ssa.CallCommon{}, globals: map[*ssa.Global]*robj{}}
 	fr := &rFrame{fn: handler, env: map[ssa.Value]rval{}}
+	for fv, bv := range respEntryBind {
+		switch x := bv.(type) {
+		case *ssa.MakeInterface:
+			fr.env[fv] = rval{k: rvIface, dyn: x.X.Type()}
+		case *ssa.Const:
+			fr.env[fv] = rw.val(fr, x)
+		}
+	}
 	rw.walk(fr, &rPath{}, handler.Blocks[0], 0, nil, map[*ssa.BasicBlock]int{}, 0, func(_ *rFrame, pt *rPath, _ []rval) {
 		rw.paths = append(rw.paths, pt)
 	})
